@@ -1,9 +1,27 @@
 (* Comparison functions used by generated case files of C16 (history correspondence + concurrent calls). *)
 From Mage Require Import Base.Strs Base.Expand Model.Slices.
 
-(* harness/argvchild: prints its arguments joined by one space and a newline *)
+(* harness/argvchild: prints its arguments joined by one space and a newline (nothing if one of them is
+   --quiet) and exits with N if its last argument of the form --exit=N says so (N decimal, 0..255) *)
 Definition argvchild_out (argv : list string) : string :=
-  String.append (String.concat " " (tl argv)) (String (ascii_of_nat 10) EmptyString).
+  if existsb (String.eqb "--quiet") (tl argv) then EmptyString
+  else String.append (String.concat " " (tl argv)) (String (ascii_of_nat 10) EmptyString).
+
+Fixpoint parse_dec (acc : nat) (seen : bool) (s : string) : option nat :=
+  match s with
+  | EmptyString => if seen then Some acc else None
+  | String c r => let n := nat_of_ascii c in
+                  if Nat.leb 48 n && Nat.leb n 57 then parse_dec (10 * acc + (n - 48)) true r else None
+  end.
+Definition exit_arg (a : string) : option nat :=
+  if String.prefix "--exit=" a then
+    match parse_dec 0 false (String.substring 7 (String.length a - 7) a) with
+    | Some n => if Nat.leb n 255 then Some n else None
+    | None => None
+    end
+  else None.
+Definition argvchild_exit (argv : list string) : nat :=
+  fold_left (fun acc a => match exit_arg a with Some n => n | None => acc end) (tl argv) 0.
 
 (* n copies of s: long "slow to expand" cells of concurrent cases are written (rep_str "${Z}" n) *)
 Fixpoint rep_str (s : string) (n : nat) : string :=
@@ -16,6 +34,8 @@ Definition C_ (k : kind) (cmd : string) (baked : slice) : closure := {| cl_kind 
 Record iobs := {
   i_argv : list (list string);          (* one entry per child started: its argv (argv[0] first) *)
   i_out : option string;                (* text handed back (Output*, OutCmd closures, Exec's stdout writer) *)
+  i_stdout : string;                    (* what reached the process's os.Stdout during the call *)
+  i_status : nat;                       (* sh.ExitStatus of the returned error, 0 = nil *)
   i_snap : heap;                        (* every caller-visible array, in full, right after the operation *)
   i_emap : list (string * string)       (* the env map handed in, as it is after the operation (sorted by key) *)
 }.
@@ -23,7 +43,7 @@ Record iobs := {
 Record case := {
   c_env : list (string * string);       (* process environment (the variables the generator uses) *)
   c_heap : heap;                        (* the caller's arrays *)
-  c_cls : list closure;
+  c_cls : list closure;                 (* closures made before the history; the others are MkClosure operations *)
   c_ops : list op;
   c_obs : list iobs
 }.
@@ -33,7 +53,7 @@ Definition pair_eqb (a b : string * string) : bool := String.eqb (fst a) (fst b)
 
 Definition model_obs (c : case) : list (obs * heap) :=
   map (fun x => (fst x, firstn (length (c_heap c)) (snd x)))
-      (run_history argvchild_out true (c_cls c) (c_env c) (c_heap c) (c_ops c)).
+      (run_history argvchild_out argvchild_exit true (c_env c) (c_cls c) (c_heap c) (c_ops c)).
 
 Definition op_emap (o : op) : list (string * string) :=
   match o with CallDirect _ emap _ _ => emap | _ => [] end.
@@ -41,8 +61,10 @@ Definition op_emap (o : op) : list (string * string) :=
 Definition obs_agree (o : op) (m : obs * heap) (i : iobs) : bool :=
   heap_eqb (snd m) (i_snap i) && list_eqb pair_eqb (op_emap o) (i_emap i) &&
   match fst m with
-  | OSet => match i_argv i with [] => true | _ => false end
-  | OCall argv out => list_eqb (list_eqb String.eqb) [argv] (i_argv i) && option_eqb String.eqb out (i_out i)
+  | OSet | OMk => match i_argv i with [] => true | _ => false end
+  | OCall argv out so st =>
+      list_eqb (list_eqb String.eqb) [argv] (i_argv i) && option_eqb String.eqb out (i_out i) &&
+      String.eqb so (i_stdout i) && Nat.eqb st (i_status i)
   | OBad => false
   end.
 
@@ -71,12 +93,14 @@ Record ccase := {
 }.
 
 Definition check_conc (c : ccase) : option (list string * list string * heap) :=
-  match call_prog argvchild_out true (cc_cls c) (cc_env c) (cc_a c), call_prog argvchild_out true (cc_cls c) (cc_env c) (cc_b c) with
+  let out_of (o : obs) := match o with OCall _ out _ _ => out | _ => None end in
+  match call_prog argvchild_out argvchild_exit true (cc_cls c) (cc_env c) (cc_a c),
+        call_prog argvchild_out argvchild_exit true (cc_cls c) (cc_env c) (cc_b c) with
   | Some (pa, fa), Some (pb, fb) =>
       let '(a, b, hf) := par_exec (cc_sched c) pa pb (cc_heap c) in
       let snap := firstn (length (cc_heap c)) hf in
       if list_eqb String.eqb a (cc_argv_a c) && list_eqb String.eqb b (cc_argv_b c) &&
-         option_eqb String.eqb (fa a) (cc_out_a c) && option_eqb String.eqb (fb b) (cc_out_b c) &&
+         option_eqb String.eqb (out_of (fa a)) (cc_out_a c) && option_eqb String.eqb (out_of (fb b)) (cc_out_b c) &&
          heap_eqb snap (cc_snap c)
       then None else Some (a, b, snap)
   | _, _ => Some ([], [], [])
